@@ -65,6 +65,13 @@ func scenarioC04(x *runner.X) {
 			n = t.Pick(9999, 10000, 10001, 20001, 60000)
 			bucketKnob = 10000
 			dsim.SetKnobs(map[string]int{})
+		} else if t.Bool(0.3) {
+			// one bucket with a few thousand entries at the real bucket size: more than a thousand
+			// records to mine a hash domain for, and an entry table longer than 64 KiB
+			n = t.Range(1100, 3200)
+			bucketKnob = 10000
+			dsim.SetKnobs(map[string]int{})
+			x.Probe("c04.one-large-bucket")
 		}
 	}
 	declMul := t.Pick(1, 1, 2, 10, 3)
